@@ -229,7 +229,7 @@ impl Ctx<'_> {
             }
         } else {
             // relative pattern: resolved against the base directory
-            for base in ["/x-1", "/ż.d/9+", "/B(a)se"] {
+            for base in ["/x-1", "/ż.d/9+", "/B(a)se", "/q[ab]r/c{d,e}f"] {
                 let sel = PathSelector::new(Path::from(base)).include_paths(vec![pat.clone()]);
                 for rp in self.rel_paths {
                     let want = globref::matches(&ast, rp, false);
